@@ -195,6 +195,41 @@ fn one_scenario(run: &Run, case: u64) {
     run.sample(|| json!({"resume_case": case, "scenario": sc.desc, "trace_len": n}));
 }
 
+/// Clause 2 when a read or listing operation fails: even then no write may be issued for a
+/// block that is present (the backup has to stop, or to know what is there).
+fn one_read_fault_scenario(run: &Run, case: u64) {
+    let sc = scenario::build(run.seed, case + 1000, "c14f");
+    run.count("read_fault_scenarios", 1);
+    let only = run.replay.as_ref().and_then(|r| r.get("k")).and_then(|k| k.as_u64()).map(|k| k as usize);
+    for e in sc.trace.iter().filter(|e| matches!(e.verb, V::Read | V::ListDir | V::Metadata)) {
+        let k = e.idx;
+        if only.is_some() && only != Some(k) {
+            continue;
+        }
+        for kind in crate::icept::KINDS {
+            if run.out_of_time() {
+                run.count("crash_points_skipped_by_time_budget", 1);
+                continue;
+            }
+            let fr = sc.run_with(Mode::FailAt { k, kind }, 0);
+            run.eval();
+            run.count("read_fault_runs", 1);
+            for w in block_writes(&fr.log) {
+                run.count("block_writes_observed_under_read_faults", 1);
+                if matches!(w.pre, Some(FState::File { len, .. }) if len > 0) {
+                    run.violation(
+                        format!("block-write-issued-for-existing-block-after-{}-fault:{}", e.verb.name(), path_class(&e.path)),
+                        format!("{}: {} failed with {}; then {} was issued although the file exists ({:?})", sc.desc, e.brief(), crate::icept::kind_name(kind), w.brief(), w.pre),
+                        json!({"read_fault": true, "case": case, "k": k, "kind": crate::icept::kind_name(kind)}),
+                    );
+                    break;
+                }
+            }
+            crate::scratch::rm(&fr.arch);
+        }
+    }
+}
+
 /// Clause 1 across an interruption: the tree has not changed since the last complete version, a
 /// backup of it is killed at every point, and the next backup must still write nothing and
 /// record the addresses of the last complete version.
@@ -264,21 +299,25 @@ fn one_unchanged_scenario(run: &Run, case: u64) {
 pub fn run(tier: Tier, replay: Option<Value>) -> i32 {
     let run = Run::new("C14", "fault_enumeration", tier, replay.clone());
     let resume_replay = replay.as_ref().and_then(|r| r.get("resume")).is_some();
-    if !resume_replay && replay.as_ref().and_then(|r| r.get("unchanged_resume")).is_none() {
+    if !resume_replay && replay.as_ref().and_then(|r| r.get("unchanged_resume")).is_none() && replay.as_ref().and_then(|r| r.get("read_fault")).is_none() {
         run.par_cases(tier.pick(150, 6000), super::threads(), |c| one_history(&run, c));
     }
     let unchanged_replay = replay.as_ref().and_then(|r| r.get("unchanged_resume")).is_some();
-    if (replay.is_none() || resume_replay) && !unchanged_replay {
+    if (replay.is_none() || resume_replay) && !unchanged_replay && replay.as_ref().and_then(|r| r.get("read_fault")).is_none() {
         run.par_cases(tier.pick(16, 400), super::threads(), |c| one_scenario(&run, c));
     }
-    if replay.is_none() || unchanged_replay {
+    let fault_replay = replay.as_ref().and_then(|r| r.get("read_fault")).is_some();
+    if replay.is_none() || fault_replay {
+        run.par_cases(tier.pick(6, 60), super::threads(), |c| one_read_fault_scenario(&run, c));
+    }
+    if (replay.is_none() || unchanged_replay) && !fault_replay {
         run.par_cases(tier.pick(12, 200), super::threads(), |c| one_unchanged_scenario(&run, c));
     }
     let needs: &[(&str, u64)] = if replay.is_some() { &[] } else {
-        &[("unchanged_tree_backups", 10), ("block_writes_observed", 100), ("resume_crash_points", 100), ("crash_points_with_recorded_file_entries", 20), ("recorded_entries_compared", 50), ("unchanged_resume_crash_points", 100)]
+        &[("unchanged_tree_backups", 10), ("block_writes_observed", 100), ("resume_crash_points", 100), ("crash_points_with_recorded_file_entries", 20), ("recorded_entries_compared", 50), ("unchanged_resume_crash_points", 100), ("read_fault_runs", 100)]
     };
     run.finish(
-        "clause 1: in histories, a second backup of an untouched tree (same or different options) must issue zero block writes, report written_blocks == 0 and record identical addresses for every file (independent decode); clause 2: in every backup of every history each block write is issued only for a name whose file is absent or zero-length, and at most once (attempts are counted, from the interceptor log with pre-states); clause 3: for EVERY crash point k of the C03 scenarios' backup trace, the run is killed before k and then resumed with the same options: no block file left non-empty by the interrupted run is written again, every file entry recorded in the interrupted run's hunks reappears with identical addresses, and unmodified_files >= their number; and for trees that have not changed since the last complete version, a backup killed at EVERY point followed by another backup must still write no block and record that version's addresses. Distinct = histories with an unchanged-tree pair / (scenario, k) with recorded entries.",
+        "clause 1: in histories, a second backup of an untouched tree (same or different options) must issue zero block writes, report written_blocks == 0 and record identical addresses for every file (independent decode); clause 2: in every backup of every history each block write is issued only for a name whose file is absent or zero-length, and at most once (attempts are counted, from the interceptor log with pre-states); clause 3: for EVERY crash point k of the C03 scenarios' backup trace, the run is killed before k and then resumed with the same options: no block file left non-empty by the interrupted run is written again, every file entry recorded in the interrupted run's hunks reappears with identical addresses, and unmodified_files >= their number; and for trees that have not changed since the last complete version, a backup killed at EVERY point followed by another backup must still write no block and record that version's addresses. Also, clause 2 under single faults: every read / list_dir / metadata operation of a backup's trace fails once with each of 4 kinds, and still no block write may be issued for a name whose file exists non-empty. Distinct = histories with an unchanged-tree pair / (scenario, k) with recorded entries.",
         &["kill = no later storage effect", "E2 reader trusted"],
         Some(true),
         needs,
